@@ -2,7 +2,7 @@
     Only ExtrOcamlBasic (bool/option/list/prod/unit/sumbool to OCaml natives);
     nat, positive, N and Z stay Coq datatypes.  No Extract Constant. *)
 From Coq Require Import Extraction ExtrOcamlBasic ExtrOcamlNativeString ZArith List.
-From RV Require Import Model.Acl Model.Bytes Model.Md4 Model.Checksum Model.Delta Model.Sender Model.Mux Model.Flist Model.Generator Model.Popt Model.Tree Model.GenOps Model.Session Model.Atomic Model.Daemon Model.Serve Model.Ssh Model.Root Gen.Consts.
+From RV Require Import Model.Acl Model.Bytes Model.Md4 Model.Checksum Model.Delta Model.Sender Model.Mux Model.Flist Model.Generator Model.Popt Model.Tree Model.GenOps Model.Session Model.Atomic Model.Daemon Model.Serve Model.Ssh Model.Root Gen.Consts Proofs.EditBound.
 Extraction Language OCaml.
 Extraction "model.ml"
   Z.add Z.mul Z.sub Z.opp Z.compare Z.of_nat Z.to_nat Z.eqb Z.ltb Z.div Z.modulo
@@ -14,4 +14,5 @@ Extraction "model.ml"
   parse_arguments server_options wire_view getf setf
   delete_files select_all excluded parse_rule render lookup
   run_sender_session echo recv_steps a_run daemon_request daemon_serve admits anon_exec root_resolve rlookup
-  entry_step gen_entry' recv_ops run_ops touch_up_ops c_S_IFIFO c_S_IFSOCK c_S_IFCHR c_S_IFBLK c_chunkSize c_sendFile_chunkSize.
+  entry_step gen_entry' recv_ops run_ops touch_up_ops c_S_IFIFO c_S_IFSOCK c_S_IFCHR c_S_IFBLK c_chunkSize c_sendFile_chunkSize
+  no_accident_check build ins_bytes copies lits.
